@@ -380,11 +380,14 @@ def translate(outdir, opts):
     files = compile_all(outdir, opts)
     calls, sites, others, per_tu = [], [], {}, {}
     mk = carve = None
+    itexts = {}
     sources = {}
     for (tu, opt), (spath, ipath) in sorted(files.items(), key=lambda kv: (opts.index(kv[0][1]), vlib.COMMON_SRCS.index(kv[0][0]))):
         stext = open(spath, errors="replace").read()
         itext = open(ipath, errors="replace").read()
         decls = asm_decls(itext)
+        if opt == opts[0]:
+            itexts[tu] = itext
         n = 0
         for f, ln, ins in asm_statements(stext):
             if not touches_rsp(ins):
@@ -410,7 +413,10 @@ def translate(outdir, opts):
                                                          ("myth_context_func.h", "myth_context.h", "myth_config.h")])):
         sources[p] = vlib.file_sha(p)
     sources[os.path.join(vlib.REPO, "src", "myth_sched_func.h")] = vlib.file_sha(os.path.join(vlib.REPO, "src", "myth_sched_func.h"))
-    return {"sites": sites, "others": others, "mk": mk, "carve": carve, "calls": calls, "per_tu": per_tu, "sources": sources}
+    publish = extract_publish(itexts)
+    for b in publish["bodies"]:
+        sources.setdefault(b["file"], vlib.file_sha(b["file"]))
+    return {"sites": sites, "others": others, "mk": mk, "carve": carve, "publish": publish, "calls": calls, "per_tu": per_tu, "sources": sources}
 
 
 def coq_site(k, st):
@@ -441,6 +447,7 @@ def coq_data(tr, header, with_proofs=True, module_imports="Ctx.X86Model Ctx.CtxC
     o.append("(* custom-data carve-out of myth_create_ex_body, case custom_data_size > 0:\n" +
              "\n".join("     " + n.replace("*)", "* )") for n in tr["carve"]["notes"] + ["NOT UNDERSTOOD: " + u for u in tr["carve"]["unknown"]]) + " *)")
     o.append(coq_carve(tr["carve"]))
+    o.append(coq_publish(tr["publish"]))
     return "\n".join(o) + "\n"
 
 
@@ -452,6 +459,7 @@ def digest(tr):
                                          (st["decl"] or {}).get("clobbers_text"))).encode())
     h.update(repr(tr["mk"]).encode())
     h.update(repr([tr["carve"][k] for k in ("empty", "voidcall", "ptr", "copy_dst", "copy_len", "ok")]).encode())
+    h.update(repr([(b["name"], b["events"]) for b in tr["publish"]["bodies"]]).encode())
     return h.hexdigest()
 
 
@@ -886,6 +894,212 @@ def coq_carve(cv):
     o = lambda v: "(Some (%s))" % v.coq() if v is not None else "None"
     return ("Definition cd_layout : carve :=\n  mkCarve %s %s %s %s %s %s.\n"
             % (o(cv["empty"]), o(cv["voidcall"]), o(cv["ptr"]), o(cv["copy_dst"]), o(cv["copy_len"]), "true" if cv["ok"] else "false"))
+
+
+# ---------------------------------------------------------------------------------------------
+# publication of the running thread versus the save of its context
+#
+# For every function defined in a library translation unit that is NOT a context-switch callback (the callbacks
+# are the call targets inside the switching asm statements) the ordered list of events
+#   PPubSelf            the running thread (an alias of env->this_thread, or the thread whose context the function's
+#                       switch statement saves) is handed to a publishing operation (run-queue push/put/pass, sleep
+#                       queue / stack enqueue, store into a ->th / ->join_thread field), directly or through a helper
+#                       function that publishes the corresponding parameter
+#   PPubOther           another thread is published
+#   PSwitchCall n       switch with callback n that saves the running thread's context
+#   PSwitchPlainThread  switch WITHOUT callback that saves a thread's context
+#   PSwitchPlainSched   switch without callback that saves the scheduler's context (env->sched.context)
+#   PSetCall n / PSetPlain   switch that saves nothing (the running thread has finished)
+# ---------------------------------------------------------------------------------------------
+
+PUBLISH_OPS = ["myth_queue_put", "myth_queue_push", "myth_queue_pass", "myth_queue_trypass",
+               "myth_sleep_queue_enq_th", "myth_sleep_queue_enq", "myth_sleep_stack_push_th", "myth_sleep_stack_push"]
+PUBLISH_FIELDS = ["th", "join_thread"]
+_KEYWORDS = {"if", "while", "for", "switch", "return", "sizeof", "do", "else", "asm", "__asm__", "__attribute__", "defined"}
+
+
+def function_defs(itext):
+    """{name: (params, body, file, line)} of every function definition in a preprocessed translation unit"""
+    starts, info = line_map(itext)
+    res, i, n, depth = {}, 0, len(itext), 0
+    while i < n:
+        c = itext[i]
+        if c == '"':
+            i += 1
+            while i < n and itext[i] != '"':
+                i += 2 if itext[i] == "\\" else 1
+        elif c == "'":
+            i += 1
+            while i < n and itext[i] != "'":
+                i += 2 if itext[i] == "\\" else 1
+        elif c == "{":
+            if depth == 0:
+                j = i - 1
+                while j >= 0 and itext[j] in " \t\r\n":
+                    j -= 1
+                end = match_brace(itext, i)
+                if j >= 0 and itext[j] == ")":
+                    # find the matching '(' backwards
+                    d, k = 0, j
+                    while k >= 0:
+                        if itext[k] == ")":
+                            d += 1
+                        elif itext[k] == "(":
+                            d -= 1
+                            if d == 0:
+                                break
+                        k -= 1
+                    base = max(0, k - 160)
+                    m = re.search(r"([A-Za-z_]\w*)\s*$", itext[base:k])
+                    if m and m.group(1) not in _KEYWORDS:
+                        params = []
+                        for p in split_top(itext[k + 1:j], ","):
+                            ids = re.findall(r"[A-Za-z_]\w*", p)
+                            params.append(ids[-1] if ids else "")
+                        f, ln = locate(starts, info, base + m.start(1))
+                        res[m.group(1)] = (params, re.sub(r"^#.*$", "", itext[i + 1:end], flags=re.M), f, ln)
+                i = end
+            else:
+                depth += 1
+        elif c == "}":
+            depth = max(0, depth - 1)
+        i += 1
+    return res
+
+
+def strip_casts(a):
+    a = CAST.sub(" ", a)
+    a = re.sub(r"\(\s*(?:struct\s+)?\w+_t\s*\**\s*\)", " ", a)
+    a = a.strip()
+    while a.startswith("(") and balanced(a, 0) == len(a):
+        a = a[1:-1].strip()
+    return a
+
+
+def body_events(name, params, body, defs, callbacks, helper_pub, calls_tbl):
+    """ordered [(pos, event, detail)] of one non-callback function body"""
+    ev = []
+    selfs = set(re.findall(r"\b([A-Za-z_]\w*)\s*=[^=;]*?->\s*this_thread\b", body))
+    selfs |= set(re.findall(r"\b([A-Za-z_]\w*)\s*=\s*myth_self_body\s*\(", body))
+    # switching asm statements
+    for m in re.finditer(r"\b(?:asm|__asm__)\b\s*(?:volatile|__volatile__)?\s*\(", body):
+        beg = m.end() - 1
+        end = balanced(body, beg)
+        secs = split_top(body[beg + 1:end - 1], ":")
+        tmpl = "".join(strings_of(secs[0]))
+        if "rsp" not in tmpl or not re.search(r"mov[q]?\s+[^\n]*,\s*%%?rsp|push|pop", tmpl):
+            continue
+        saves = re.search(r"mov[q]?\s+%%?rsp\s*,", tmpl) is not None
+        cm = re.search(r"call[q]?\s+([A-Za-z_]\w*)", tmpl)
+        ins = split_top(secs[2], ",") if len(secs) > 2 else []
+        frm = strip_casts(re.sub(r'^\s*"[^"]*"\s*', "", ins[0])) if ins else ""
+        frm = strip_casts(frm[1:-1]) if frm.startswith("(") and frm.endswith(")") else frm
+        if saves:
+            fm = re.match(r"^&\s*\(?\s*([A-Za-z_]\w*)\s*\)?\s*->\s*context$", frm)
+            if fm:
+                selfs.add(fm.group(1))
+                kind = ("PSwitchCall", cm.group(1)) if cm else ("PSwitchPlainThread", frm)
+            elif re.search(r"sched\s*\.\s*context$", frm):
+                kind = ("PSwitchCallSched", cm.group(1)) if cm else ("PSwitchPlainSched", frm)
+            else:
+                kind = ("PSwitchCall", cm.group(1)) if cm else ("PSwitchPlainThread", frm or "?")
+        else:
+            kind = ("PSetCall", cm.group(1)) if cm else ("PSetPlain", "")
+        ev.append((m.start(), kind[0], kind[1]))
+    asm_spans = [(m.start(), balanced(body, m.end() - 1)) for m in re.finditer(r"\b(?:asm|__asm__)\b\s*(?:volatile|__volatile__)?\s*\(", body)]
+    in_asm = lambda p: any(a <= p < b for a, b in asm_spans)
+    is_self = lambda a: strip_casts(a) in selfs
+    # publishing operations and helpers
+    for m in re.finditer(r"\b([A-Za-z_]\w*)\s*\(", body):
+        f = m.group(1)
+        if in_asm(m.start()) or f in _KEYWORDS:
+            continue
+        if f in PUBLISH_OPS or f in helper_pub:
+            end = balanced(body, m.end() - 1)
+            args = split_top(body[m.end():end - 1], ",")
+            idxs = [len(args) - 1] if f in PUBLISH_OPS else sorted(helper_pub[f])
+            for k in idxs:
+                if k < len(args):
+                    a = strip_casts(args[k])
+                    ev.append((m.start(), "PPubSelf" if is_self(a) else "PPubOther", "%s(%s)" % (f, a)))
+    for m in re.finditer(r"->\s*(%s)\s*=(?!=)\s*([^;]+);" % "|".join(PUBLISH_FIELDS), body):
+        if in_asm(m.start()):
+            continue
+        a = strip_casts(m.group(2))
+        if re.match(r"^(0|NULL|\(\(void ?\*\)0\))$", a):
+            continue
+        ev.append((m.start(), "PPubSelf" if is_self(a) else "PPubOther", "->%s = %s" % (m.group(1), a)))
+    ev.sort()
+    return ev, selfs
+
+
+def extract_publish(itexts):
+    """itexts: {tu: preprocessed text}.  Returns {"bodies": [{name, file, line, tus, events:[(event, detail)]}], "callbacks": [...]}"""
+    callbacks = set()
+    alldefs = {}
+    for tu, it in itexts.items():
+        for d in asm_decls(it):
+            for tl in d["template"]:
+                m = re.match(r"call[q]?\s+([A-Za-z_]\w*)", tl)
+                if m:
+                    callbacks.add(m.group(1))
+        for name, v in function_defs(it).items():
+            alldefs.setdefault(name, []).append((tu,) + v)
+    # helpers that publish one of their parameters (one level; callbacks excluded)
+    helper_pub = {}
+    for name, vs in alldefs.items():
+        if name in callbacks or name in PUBLISH_OPS:
+            continue
+        tu, params, body, f, ln = vs[0]
+        for m in re.finditer(r"\b(%s)\s*\(" % "|".join(PUBLISH_OPS), body):
+            end = balanced(body, m.end() - 1)
+            args = split_top(body[m.end():end - 1], ",")
+            a = strip_casts(args[-1]) if args else ""
+            if a in params:
+                helper_pub.setdefault(name, set()).add(params.index(a))
+        for m in re.finditer(r"->\s*(%s)\s*=(?!=)\s*([^;]+);" % "|".join(PUBLISH_FIELDS), body):
+            a = strip_casts(m.group(2))
+            if a in params:
+                helper_pub.setdefault(name, set()).add(params.index(a))
+    bodies, seen = [], {}
+    cb_names = sorted(callbacks)
+    for name in sorted(alldefs):
+        if name in callbacks:
+            continue
+        for tu, params, body, f, ln in alldefs[name]:
+            key = (name, hashlib.sha1(body.encode()).hexdigest())
+            if key in seen:
+                seen[key]["tus"].append(tu)
+                continue
+            ev, selfs = body_events(name, params, body, alldefs, callbacks, helper_pub, None)
+            if not any(e[1].startswith(("PSwitch", "PSet")) or e[1] == "PPubSelf" for e in ev):
+                continue
+            b = {"name": name, "file": f, "line": ln, "tus": [tu], "self_aliases": sorted(selfs),
+                 "events": [(e[1], e[2]) for e in ev]}
+            seen[key] = b
+            bodies.append(b)
+    return {"bodies": bodies, "callbacks": cb_names,
+            "helpers_publishing_a_parameter": {k: sorted(v) for k, v in helper_pub.items()}}
+
+
+def coq_publish(pb):
+    cbs = pb["callbacks"]
+    o = ["(* publication of the running thread vs. the save of its context, per non-callback function body;",
+         "   callbacks (PSwitchCall n / PSetCall n): " + ", ".join("%d=%s" % (i, c) for i, c in enumerate(cbs)) + " *)"]
+    names = []
+    for k, b in enumerate(pb["bodies"]):
+        evs = []
+        for e, d in b["events"]:
+            if e in ("PSwitchCall", "PSwitchCallSched", "PSetCall"):
+                evs.append("%s %d" % (e, cbs.index(d) if d in cbs else 999))
+            else:
+                evs.append(e)
+        o.append("(* %s  (%s:%d)  %s *)" % (b["name"], os.path.relpath(b["file"], vlib.REPO) if b["file"].startswith(vlib.REPO) else b["file"], b["line"],
+                                           "; ".join("%s %s" % (e, d) for e, d in b["events"]).replace("*)", "* )")))
+        o.append("Definition body_%d : list pev := [%s]." % (k, "; ".join(evs)))
+        names.append("body_%d" % k)
+    o.append("Definition bodies : list (list pev) := [%s].\n" % "; ".join(names))
+    return "\n".join(o) + "\n"
 
 
 if __name__ == "__main__":
